@@ -1,5 +1,6 @@
 import ParsecVerif.Base.Proto
 import ParsecVerif.Model.FourCounter
+import Std.Data.HashMap
 open ParsecVerif ParsecVerif.Proto ParsecVerif.FourCounter
 
 def stCode : St → String
@@ -28,16 +29,37 @@ def act (s : State) (a : Action) (q erased : Nat) : State × String :=
   | some s' => outcome s s' q erased
   | none => (s, "rejected")
 
-/-- exhaustive exploration (labelled exploration, not proof): all control-only runs from `s`;
-    returns (longest run, all maximal runs end with every process terminated) -/
-partial def ctlRuns (s : State) : Nat × Bool :=
-  let ks := (List.range s.net.length).filter fun k =>
-    match s.net[k]? with | some pk => !isApp pk && !pk.held | none => false
-  if ks.isEmpty then (0, (List.range s.n).all fun q => (s.procs q).st == .term)
-  else ks.foldl (fun (acc : Nat × Bool) k =>
-      match FourCounter.step s (.deliver k) with
-      | some s' => let r := ctlRuns (norm s'); (max acc.1 (r.1 + 1), acc.2 && r.2)
-      | none => (acc.1, false)) (0, true)
+/-- canonical key of the protocol-relevant part of a state (network as a multiset) -/
+def stateKey (s : State) : String :=
+  let ps := (List.range s.n).map fun q =>
+    let p := s.procs q
+    s!"{stCode p.st},{p.ncl},{p.accS},{p.accR},{p.lastS},{p.lastR},{p.ms},{p.mr}"
+  let ns := (s.net.map pkStr).toArray.qsort (· < ·)
+  ";".intercalate ps ++ "|" ++ " ".intercalate ns.toList
+
+/-- exhaustive exploration (labelled exploration, not proof): all control-only runs from `s`,
+    memoised on the state; returns (longest run, all maximal runs end with every process terminated) -/
+partial def ctlRuns (s : State) : StateM (Std.HashMap String (Nat × Bool)) (Nat × Bool) := do
+  let key := stateKey s
+  match (← get).get? key with
+  | some r => return r
+  | none =>
+    let ks := (List.range s.net.length).filter fun k =>
+      match s.net[k]? with | some pk => !isApp pk && !pk.held | none => false
+    let mut best : Nat := 0
+    let mut ok : Bool := true
+    if ks.isEmpty then
+      ok := (List.range s.n).all fun q => (s.procs q).st == .term
+    else
+      for k in ks do
+        match FourCounter.step s (.deliver k) with
+        | some s' =>
+          let r ← ctlRuns (norm s')
+          best := max best (r.1 + 1)
+          ok := ok && r.2
+        | none => ok := false
+    modify fun m => m.insert key (best, ok)
+    return (best, ok)
 
 def quiescent (s : State) : Bool :=
   (List.range s.n).all (fun q => (s.procs q).wl == 0 && (s.procs q).opn == 0 &&
@@ -108,8 +130,8 @@ def step1 (s : State) : List String → State × String
     (s, " ".intercalate ((List.range s.n).map fun q => stCode (s.procs q).st) ++ " | " ++ showList (s.net.map pkStr))
   | ["explore"] =>
     if quiescent s then
-      let r := ctlRuns s
-      (s, s!"longest={r.1} allterm={if r.2 then 1 else 0}")
+      let (r, memo) := (ctlRuns s).run {}
+      (s, s!"longest={r.1} allterm={if r.2 then 1 else 0} states={memo.size}")
     else (s, "rejected")
   | _ => (s, "bad-op")
 
